@@ -231,7 +231,8 @@ fn ty_example(
                 let value = transformer.resolve(f.id)?;
                 fields.push(value)
             }
-            Ok(quote!(( #(#fields),* )))
+            // trailing comma: a one-element tuple has to stay a tuple, `(x)` is just `x`
+            Ok(quote!(( #(#fields,)* )))
         }
         scale_info::TypeDef::Primitive(def) => Ok(primitive_example(
             def,
